@@ -242,7 +242,7 @@ def relabel(ctx, p):
 BUILD_MEASURES = ["degree", "size", "incidence_matrix", "connected_components", "maximal", "density"]
 
 
-@harness("C09.build")
+@harness("C09.build", raises_are_violations=True)
 def build(ctx, p):
     """The same comparison for networks built through the public API (add_edge with
     explicit ids in the given insertion order) instead of directly in the tables:
@@ -283,7 +283,7 @@ MEASURES["net_degree"] = node_dict(lambda H: H.degree())
 MEASURES["net_size"] = edge_dict(lambda H: H.size())
 
 
-@harness("C09.hash")
+@harness("C09.hash", raises_are_violations=True)
 def hashed(ctx, p):
     """Real hashing: labels are forked exhaustively over a window that contains
     negatives (hash(-1) == hash(-2)) and values whose set order differs from
